@@ -144,6 +144,14 @@ def makeTriangleMesh (su sv s : Nat) : TriMesh K :=
   let vs := r.1.filterMap fun k => verts[k]?
   { uv := vs.map (·.1), src := vs.map (·.2), faces := r.2 }
 
+/-- vertex parameters of `make_quad_mesh(points, size_u, size_v)` (with the repair of F-15c) for `n` points:
+    vertex `k` (id `k` = point index) gets
+    `uv = [float(k // size_v) / float(size_u - 1), float(k % size_v) / float(size_v - 1)]`.
+    The code raises `ZeroDivisionError` when `size_u = 1` or `size_v = 1` (guarded by the driver). -/
+def quadVertexUV (n su sv : Nat) : List (K × K) :=
+  (List.range n).map fun k =>
+    ((Nat.cast (k / sv) : K) / (Nat.cast (su - 1) : K), (Nat.cast (k % sv) : K) / (Nat.cast (sv - 1) : K))
+
 /-- twice the signed area of the parametric triangle `t = [a,b,c]` for a vertex → uv table -/
 def triArea2 (uv : Nat → K × K) : List Nat → K
   | [a, b, c] => ((uv b).1 - (uv a).1) * ((uv c).2 - (uv a).2) - ((uv c).1 - (uv a).1) * ((uv b).2 - (uv a).2)
